@@ -1,4 +1,11 @@
 //! nusim core: seeded PRNG, sharded runner, simulated I/O seams, evidence/replay plumbing.
+pub mod codec;
+pub mod decl;
+pub mod diff;
 pub mod report;
 pub mod rng;
 pub mod runner;
+pub mod shapes;
+pub mod simformat;
+pub mod simio;
+pub mod tokdiff;
